@@ -307,6 +307,7 @@ macro_rules! buf_step_fixed {
 }
 
 // ---- quick ---------------------------------------------------------------------------------
+ofb_three!(ofb_b1_w1_p16_1_2, 80, U1, 1, U1, 16, 1, 2); // a call of exactly 16 whole blocks, then more
 ofb_two!(ofb_b2_w1_a3_n5, 48, U2, 2, U1, 3, 5);
 ofb_two!(ofb_b2_w2_a2_n5, 48, U2, 2, U2, 2, 5);
 ofb_two!(ofb_b4_w1_a1_n9, 48, U4, 4, U1, 1, 9);
@@ -339,6 +340,8 @@ prefix_case!(prefix_cfb8_dec_b2_l5, 48, cfb8, Decryptor, dec, U2, 2, U1, 5);
 // ---- thorough ------------------------------------------------------------------------------
 ofb_two!(t_ofb_b4_w2_a5_n9, 64, U4, 4, U2, 5, 9);
 ofb_three!(t_ofb_b4_w2_p3_0_7, 48, U4, 4, U2, 3, 0, 7);
+ofb_three!(t_ofb_b1_w4_p32_1_1, 80, U1, 1, U4, 32, 1, 1);
+ofb_three!(t_ofb_b2_w1_p32_2_1, 80, U2, 2, U1, 32, 2, 1);
 ofb_three!(t_ofb_b3_w3_p2_4_4, 48, U3, 3, U3, 2, 4, 4);
 ctr_two!(t_ctr32be_b4_w1_a0_n9, 48, Ctr32BE, spec::CTR32BE, u32, U4, 4, U1, 0, 9);
 ctr_two!(t_ctr32be_b4_w1_a4_n9, 48, Ctr32BE, spec::CTR32BE, u32, U4, 4, U1, 4, 9);
